@@ -5,7 +5,7 @@ PATCH="$1"; TIER="$2"; shift 2
 WT=$(mktemp -d /tmp/mw.XXXXXX)
 rmdir "$WT"
 git -C /repo worktree add -q --detach "$WT" HEAD || exit 3
-if ! git -C "$WT" apply "$PATCH"; then echo "PATCH DOES NOT APPLY"; git -C /repo worktree remove --force "$WT"; exit 4; fi
+if ! git -C "$WT" apply "$PATCH" 2>/dev/null && ! git -C "$WT" apply --3way "$PATCH"; then echo "PATCH DOES NOT APPLY"; git -C /repo worktree remove --force "$WT"; exit 4; fi
 for P in "$@"; do
   GVM_REPO="$WT" ./check "$P" "$TIER" > "$WT.out" 2>&1; RC=$?
   echo "== $P rc=$RC $(grep -c '^VIOLATION' "$WT.out") violation lines"
